@@ -30,7 +30,7 @@
 //   C06.status.<query>:<lp|mip>-<ref status>-reported-<answer>     wrong status / satisfiability
 //   C06.point.<what>:<query>        what = infeasible | not_integral | not_a_point | wrong_dimension | not_optimal
 //   C06.value:<class>               class = differs_from_point | suboptimal | evaluate
-//   C06.incremental_vs_fresh.<pricing>
+//   C06.incremental_vs_fresh.<pricing>:<lp|mip>-<status of the fresh problem>-reported-<incremental answer>
 //   C06.accessor.<field>, C06.ok.<after>, C06.hang.<site>:<region class>, C06.exception.<site>
 //   C13.mip.<what>, C15.mip.<what>
 #include "pplx.hh"
@@ -294,6 +294,13 @@ struct Ans {
     if (has_val) o << " value " << val; if (has_pt) o << " point " << str(g); return o.str();
   }
 };
+// how the incremental answer a differs from the fresh answer f (triage class of the differential)
+std::string answer_word(int q, const Ans& a, const Ans& f) {
+  if (a.code == f.code) return "other-value";
+  if (q == Q_SOLVE) return a.code >= 0 && a.code < 3 ? STN[a.code] : "?";
+  if (q == Q_SAT || q == Q_FEAS) return a.code ? "feasible" : "unfeasible";
+  return a.code ? "optimized" : "no-optimum";
+}
 bool same_answer(const Ans& a, const Ans& b) { return a.code == b.code && a.has_val == b.has_val && (!a.has_val || a.val == b.val); }
 
 Ans run_query(MIP_Problem& m, int q, const Generator* evalpt) {
@@ -645,16 +652,16 @@ void run_query_step(Slot& s, int q, const std::string& pre) {
       ff[k] = full_answer(*f);
       if (!check_full(ff[k], s.D, O, fname[k])) throw Stop();
       checked(); if (!same_answer(af, implied(ff[k], q))) { violation(std::string("C06.status.") + QN[q] + ":changes-after-solve", fname[k] + ": " + QN[q] + " -> " + af.text(q) + " before and " + implied(ff[k], q).text(q) + " after solve(); " + show(s.D)); throw Stop(); }
-      checked(); if (!same_answer(a0, af)) { violation(std::string("C06.incremental_vs_fresh.") + PVN[p], std::string(QN[q]) + " [" + stw + "]: incremental " + a0.text(q) + ", " + fname[k] + " " + af.text(q) + "; " + show(s.D)); throw Stop(); }
+      checked(); if (!same_answer(a0, af)) { violation(std::string("C06.incremental_vs_fresh.") + PVN[p] + ":" + O.kind() + "-" + STN[ff[k].st] + "-reported-" + answer_word(q, a0, af), std::string(QN[q]) + " [" + stw + "]: incremental " + a0.text(q) + ", " + fname[k] + " " + af.text(q) + "; " + show(s.D)); throw Stop(); }
     }
     // the incremental answer itself against the reference (reached only when every fresh problem agrees with it)
     if (!check_answer(a0, q, s.D, O, "incremental problem", &evalpt)) throw Stop();
-    for (int k = 1; k < 6; ++k) { checked(); if (ff[k].st != ff[0].st || (ff[0].st == 1 && ff[k].val != ff[0].val)) { violation(std::string("C06.incremental_vs_fresh.") + PVN[k % 3], "fresh problems disagree among themselves: " + fname[0] + " " + STN[ff[0].st] + ", " + fname[k] + " " + STN[ff[k].st] + "; " + show(s.D)); throw Stop(); } }
+    for (int k = 1; k < 6; ++k) { checked(); if (ff[k].st != ff[0].st || (ff[0].st == 1 && ff[k].val != ff[0].val)) { violation(std::string("C06.incremental_vs_fresh.") + PVN[k % 3] + ":fresh-problems-disagree", "fresh problems disagree among themselves: " + fname[0] + " " + STN[ff[0].st] + ", " + fname[k] + " " + STN[ff[k].st] + "; " + show(s.D)); throw Stop(); } }
     // the pre-query copy answers like the original, then is solved completely: still the same as fresh
     Ans a1 = run_query(c, q, &evalpt); checked();
     if (!same_answer(a0, a1)) { violation(std::string("C13.mip.copy_answer_differs.") + QN[q], "copy: " + a1.text(q) + " original: " + a0.text(q) + " [" + stw + "]; " + show(s.D)); throw Stop(); }
     Full fc = full_answer(c);
-    checked(); if (fc.st != ff[0].st || (fc.st == 1 && fc.val != ff[0].val)) { std::ostringstream o; o << "complete solve of (a copy of) the incremental problem [" << stw << " then " << QN[q] << "]: " << STN[fc.st]; if (fc.has_val) o << " " << fc.val; o << "; fresh: " << STN[ff[0].st]; if (ff[0].has_val) o << " " << ff[0].val; o << "; " << show(s.D); violation("C06.incremental_vs_fresh.float", o.str()); throw Stop(); }
+    checked(); if (fc.st != ff[0].st || (fc.st == 1 && fc.val != ff[0].val)) { std::ostringstream o; o << "complete solve of (a copy of) the incremental problem [" << stw << " then " << QN[q] << "]: " << STN[fc.st]; if (fc.has_val) o << " " << fc.val; o << "; fresh: " << STN[ff[0].st]; if (ff[0].has_val) o << " " << ff[0].val; o << "; " << show(s.D); violation(std::string("C06.incremental_vs_fresh.float:") + O.kind() + "-" + STN[ff[0].st] + "-reported-" + (fc.st != ff[0].st ? STN[fc.st] : "other-value"), o.str()); throw Stop(); }
     if (!check_full(fc, s.D, O, "copy of the incremental problem")) throw Stop();
     hx::count(std::string("status.") + O.kind() + "." + STN[ff[0].st]);
   }
